@@ -282,6 +282,23 @@ impl Item {
             Cmd::Garbage(line) => return line.clone(),
             Cmd::Sudo => "sudo".to_string(),
         };
+        // Any amount of blanks between tokens is legal: now and then a run long enough that a
+        // reader with a fixed-size buffer (1024, 4096 bytes) has its limit fall just before or
+        // inside the last token
+        let body = if !matches!(self.cmd, Cmd::Echo(_) | Cmd::Eval(_)) && r.chance(1, 70) {
+            match body.rfind(' ') {
+                Some(at) => {
+                    let limit = *r.pick(&[1024usize, 1024, 4096, 4096, 2048, 8192]);
+                    let last = body.len() - at - 1;
+                    let inside = r.usize_below(last + 2);
+                    let pad = (limit + inside).saturating_sub(body.len()).max(1);
+                    format!("{}{}{}", &body[..at], " ".repeat(pad), &body[at..])
+                }
+                None => body,
+            }
+        } else {
+            body
+        };
         // Leading/trailing blanks are legal
         match r.below(8) {
             0 => format!("  {}", body),
